@@ -111,7 +111,7 @@ func (g *gen) genFuncs() ([]*ufunc, bool) {
 		}
 		body := g.template(g.r.Range(1, 3), sc)
 		g.pConst = savedConst
-		if g.r.Intn(10) == 0 {
+		if !g.noLong && g.r.Intn(10) == 0 {
 			// a long definition: one physical line of the file well beyond any small read buffer (4 KiB, 16 KiB), short of
 			// the 64 KiB a line scanner takes by default
 			body.A = append(body.A, &Node{K: nLit, S: "|" + strings.Repeat("long-literal-", g.r.Range(320, 2400)) + "|"})
